@@ -424,14 +424,14 @@ def run(ctx):
 
     # --- correspondence: model vs real passes -----------------------------------
     coq_cases = [(r["term"], r["expected"], r) for r in ready]
-    runner = fw.CoqCases(ctx, "scope", HEADER, "run_case", "case_eqb", "input", "(outcome1 * option outcome2)", shard=8)
+    header = HEADER + scope_x.string_definitions([t for a, b, _ in coq_cases for t in (a, b)])
+    runner = fw.CoqCases(ctx, "scope", header, "run_case", "case_eqb", "input", "(outcome1 * option outcome2)", shard=10)
     bad = runner.run(coq_cases)
     ctx.extra["coq_cases_s"] = round(time.time() - t0 - ctx.extra["prepare_s"], 1)
     for r in ready:
         ctx.case((r["label"], sorted(r["files"].items()), r["main"]), nontrivial=r["nrefs"] > 0,
                  sample={"case": r["label"], "references": r["nrefs"], "implementation": r["status"],
                          "text": (r["files"].get("m.emb", "") or r["main"])[:400]})
-        ctx.count("impl:" + r["status"])
         ctx.count("references", r["nrefs"])
     ctx.obligation("correspondence: model = resolve_symbols/resolve_field_references on %d module sets "
                    "(canonical name of every reference, or every error with kind/file/line/name/notes)" % len(ready), not bad)
